@@ -1,5 +1,5 @@
 (* C16 — no message content can crash the client; colouring never alters text.  Statements only. *)
-From DT Require Import Lib.Bytes Lib.Split Gen.Consts Model.C16_Color Proofs.C16_Color Proofs.C16_Strip.
+From DT Require Import Lib.Bytes Lib.Split Gen.Consts Model.C16_Color Proofs.C16_Color Proofs.C16_Strip Model.C16_Aggr Proofs.C16_Aggr.
 
 (* Colouring is lossless: whenever a message is rendered, the text parts of the rendering,
    concatenated, are exactly the message - codes are only inserted, no byte of any field,
@@ -40,6 +40,31 @@ Print Assumptions C16_strip.
 Theorem C16_strip_partial : forall m, In m (words 5) -> strip_ok m = true.
 Proof. exact (proj1 (forallb_forall strip_ok (words 5)) strip_sweep_5). Qed.
 Print Assumptions C16_strip_partial.
+
+(* AGGREGATE records (the mapreduce client): whatever a server puts into one - any number of fields, any payload, any
+   sample count, any key/value parts - handling it never panics: it is aggregated, or refused with one of three logged
+   errors.  (The Go indices parts[2], parts[0], parts[1], kv[0], kv[1] are checked operations of the model.) *)
+Theorem C16_no_panic_aggregate : forall msg, handle_aggregate msg <> APanic.
+Proof. exact handle_aggregate_total. Qed.
+Print Assumptions C16_no_panic_aggregate.
+Theorem C16_no_panic_aggregate_stream : forall s, Forall (fun r => r <> APanic) (stream_results s).
+Proof. exact stream_no_panic. Qed.
+(* ... and what is aggregated is the payload's own group key, sample count (a decimal int64) and key/value parts *)
+Theorem C16_aggregate_accepts : forall p key n fields, client_aggregate p = AOk key n fields ->
+  exists cnt rest, split_seq c_aggregate_delimiter p = key :: cnt :: rest /\ 2 <= length rest /\ go_atoi cnt = Some n /\ fields = make_fields rest.
+Proof. exact client_aggregate_ok. Qed.
+Theorem C16_split_seq_lossless : forall sep s, join_seq sep (split_seq sep s) = s.
+Proof. exact split_seq_join. Qed.
+
+Example C16_aggregate_example :
+  let d := c_aggregate_delimiter in let kv := c_aggregate_kv_delimiter in
+  handle_aggregate (B"AGGREGATE|host|web01" ++ d ++ B"3" ++ d ++ B"count(x)" ++ kv ++ B"3" ++ d ++ B"junk" ++ d)
+    = AOk (B"web01") 3 [(B"count(x)", B"3")]
+  /\ handle_aggregate (B"AGGREGATE|web01" ++ d ++ B"3" ++ d) = AErrParts
+  /\ handle_aggregate (B"AGGREGATE|h|web01" ++ d ++ B"3" ++ d) = AErrNoData
+  /\ handle_aggregate (B"AGGREGATE|h|web01" ++ d ++ B"9223372036854775808" ++ d ++ d) = AErrCount
+  /\ handle_aggregate (B"AGGREGATE|h|" ++ d ++ B"-0" ++ d ++ d) = AOk [] 0 [].
+Proof. vm_compute. repeat split; reflexivity. Qed.
 
 Example C16_example :
   match colorfy true (B"REMOTE|host|100|7|id|payload | with bar" ++ [nlb]) with
